@@ -1,4 +1,7 @@
 import OtelVerif.Model.C14
+import OtelVerif.Lemmas.C14Census
+import OtelVerif.Model.C14Exp
+import OtelVerif.Lemmas.C14Exp
 /-!
 # C14 — opaque (secret) configuration values never appear in any rendering
 
@@ -741,5 +744,246 @@ theorem C14_fmt_unexported_field_ignores_methods (td : TD) (c : FmtCtx) (hp : (c
 
 example : pa realTD { verb := 'v' } ρa (.struct [({ name := "headers", exported := false }, .slice [.struct [({ name := "value", exported := false }, .opq 0)]])])
     = [⟨.rawKind, "s3cr3t"⟩] := by decide
+
+/-! ## the regenerated census of opaque-typed fields and of the places where their text is taken out
+
+`translators/cmd/opaquecensus` (go/ast) lists every struct field of the repository whose type mentions
+`configopaque.String`, every conversion `string(x)` / `[]byte(x)` of an opaque value (the only operation that yields the
+secret) and every call that is handed a still-typed opaque value.  The theorems below connect the field list to the
+hypotheses of the fmt theorem and keep the other two lists under review. -/
+
+/-- regenerated obligation: every opaque-typed field of the repository has a SAFE shape — pointers point directly at an
+opaque string, no map is keyed by one (`fmt` sorts map entries by the raw key; json writes a map key raw) -/
+theorem C14_census_shapes_safe : ∀ f ∈ OpaqueCensus.fields, f.shape.safe = true := by decide
+
+/-- every value of a type of safe shape is plain, for any size and nesting … -/
+theorem C14_safe_shape_values_plain (sh : OShape) (hs : sh.safe = true) (v : GV) (hv : v.inhab sh = true) : v.plainIn = true :=
+  inhab_plain v sh hs hv
+
+/-- … hence for EVERY value of EVERY exported opaque-typed field of the repository, the struct holding it prints the same text
+for any two secret environments under every verb other than `w` / `p` and every flag set (the instance of
+`C14_fmt_noninterference_partial` on the regenerated census AND the regenerated method table) -/
+theorem C14_census_fields_fmt_noninterference (f : CField) (hf : f ∈ OpaqueCensus.fields) (he : f.exported = true)
+    (v : GV) (hv : v.inhab f.shape = true) (c : FmtCtx) (hw : (c.verb == 'w') = false) (hp : (c.verb == 'p') = false)
+    (ρ₁ ρ₂ : Nat → String) :
+    pa realTD c ρ₁ (.struct [(f.info, v)]) = pa realTD c ρ₂ (.struct [(f.info, v)]) := by
+  apply C14_fmt_noninterference_partial c hw hp
+  have hp := C14_safe_shape_values_plain f.shape (C14_census_shapes_safe f hf) v hv
+  simp [GV.plainTop, GV.dyn, GV.plainIn, GV.plainInF, CField.info, he, hp]
+
+/-- non-vacuity: three headers in the real `confighttp.ClientConfig.Headers` shape, and a value of an unsafe shape that leaks -/
+example : (GV.map [(.str "a", .opq 0), (.str "b", .opq 1), (.str "c", .opq 2)]).inhab (.map .other .opq) = true := by decide
+example : (OShape.map .opq .other).safe = false ∧ (OShape.ptr (.slice .opq)).safe = false := by decide
+
+/-- … and its encoding into the effective configuration does not depend on the secrets beyond their emptiness
+(`omitempty` on `headers`, `*_pem`) -/
+theorem C14_census_fields_encode_noninterference (f : CField) (v : GV) (ρ₁ ρ₂ : Nat → String)
+    (he : ∀ i, (ρ₁ i == "") = (ρ₂ i == "")) :
+    enc realTD ρ₁ (.struct [(f.info, v)]) = enc realTD ρ₂ (.struct [(f.info, v)]) :=
+  C14_encode_noninterference_real ρ₁ ρ₂ he _
+
+/-- the only opaque-typed field behind an UNEXPORTED name (fmt prints it from its kind, `C14_fmt_unexported_field_ignores_methods`)
+is the round tripper's private copy of the headers — not a configuration struct; a new one changes this list -/
+theorem C14_census_unexported_reviewed :
+    (OpaqueCensus.fields.filter (fun f => !f.exported)).map (fun f => (f.pkg, f.owner, f.field)) =
+      [("config/confighttp", "headerRoundTripper", "headers")] := by decide
+
+/-- every exported opaque-typed field is a configuration key (has a mapstructure name): it is reached by the encoder by key -/
+theorem C14_census_exported_are_keys : ∀ f ∈ OpaqueCensus.fields, f.exported = true → (f.key != "") = true := by decide
+
+/-- clause "explicit conversion returns the secret": the complete list of places where the repository takes the text out of an
+opaque value (file, function, conversion, what the text is handed to) — header setters, gRPC metadata, the PEM loaders.
+A new conversion (e.g. into a log field or an error text) changes the regenerated list and this obligation stops checking. -/
+theorem C14_conversion_sites_reviewed :
+    OpaqueCensus.conversions.map (fun s => (s.file, s.fn, s.kind, s.ctx)) =
+      [("config/configgrpc/configgrpc.go", "ClientConfig.addHeadersIfAbsent", "string", "append"),
+       ("config/confighttp/confighttp.go", "headerRoundTripper.RoundTrip", "string", "= req.Host"),
+       ("config/confighttp/confighttp.go", "headerRoundTripper.RoundTrip", "string", "req.Header.Set"),
+       ("config/confighttp/confighttp.go", "responseHeadersHandler", "string", "h.Set"),
+       ("config/configtls/configtls.go", "Config.loadCACertPool", "[]byte", "c.loadCertPem"),
+       ("config/configtls/configtls.go", "Config.loadCertificate", "[]byte", "= certPem"),
+       ("config/configtls/configtls.go", "Config.loadCertificate", "[]byte", "= keyPem"),
+       ("exporter/otlpexporter/otlp.go", "baseExporter.start", "string", "= headers[k]")] := by decide
+
+/-- the calls that receive a still-typed opaque value: only the response-header middleware -/
+theorem C14_typed_passes_reviewed :
+    OpaqueCensus.passes.map (fun s => (s.file, s.fn, s.expr, s.ctx)) =
+      [("config/confighttp/confighttp.go", "ServerConfig.ToServer", "hss.ResponseHeaders", "responseHeadersHandler")] := by decide
+
+/-- the log / format calls of the repository that are handed a whole configuration value (by argument name): only the zPages
+extension's start message — exercised live by the harness under a recording logger; a new one changes the regenerated list -/
+theorem C14_config_render_sites_reviewed :
+    OpaqueCensus.renders.map (fun s => (s.file, s.fn, s.ctx, s.expr)) =
+      [("extension/zpagesextension/zpagesextension.go", "zpagesExtension.Start", "zap.Any", "zpe.config")] := by decide
+
+/-! ## fmt on exported-only trees with pointers to anything below the top — the shape of the built-in configuration types
+
+`C14_fmt_noninterference` excludes a pointer to a struct below the top level (it leaks under `%s %q %t …`, finding
+`nested-pointer-badverb-raw`), yet every built-in configuration with `tls` / `auth` / `keepalive` / `protocols` has one.
+For the verbs `fmtPointer` accepts — `v d x X b o`, i.e. `%v`, `%+v`, `%#v`: what logging and error wrapping use — such
+a pointer prints as an address, and the theorem holds for EVERY tree whose struct fields are exported. -/
+
+theorem ptrSafe_pointer {c : FmtCtx} (h : ptrSafeVerbs.contains c.verb = true) : pointerVerbs.contains c.verb = true := by
+  simp only [ptrSafeVerbs, pointerVerbs, List.contains_cons, List.contains_nil, Bool.or_false, Bool.or_eq_true, beq_iff_eq] at h ⊢
+  rcases h with h | h | h | h | h | h <;> simp [h]
+
+theorem ptrSafe_not_wp {c : FmtCtx} (h : ptrSafeVerbs.contains c.verb = true) : (c.verb == 'w') = false ∧ (c.verb == 'p') = false := by
+  simp only [ptrSafeVerbs, List.contains_cons, List.contains_nil, Bool.or_false, Bool.or_eq_true, beq_iff_eq] at h
+  rcases h with h | h | h | h | h | h <;> simp [h]
+
+section expNI
+set_option linter.unusedSectionVars false
+variable {td : TD} (hc : td.Const) (hF : (td.find "Format" false).isSome = true)
+variable (c : FmtCtx) (hv : ptrSafeVerbs.contains c.verb = true) (ρ₁ ρ₂ : Nat → String)
+include hc hF hv
+
+mutual
+theorem pv_exp_ni : ∀ v : GV, v.expIn = true → pv td c ρ₁ false true v = pv td c ρ₂ false true v
+  | .opq i, _ => by
+    have hw := (ptrSafe_not_wp hv).1
+    simp only [pv, hw, Bool.not_false, Bool.and_self, Bool.false_and, if_true]
+    exact opq_leaf_ni hc hF c hw ρ₁ ρ₂ false hF i _ _
+  | .str _, _ => rfl
+  | .num _, _ => rfl
+  | .nilv, _ => rfl
+  | .nilSlice, _ => rfl
+  | .nilMap, _ => rfl
+  | .ptr v, h => by
+    have hw := (ptrSafe_not_wp hv).1
+    have hne : (c.verb != 'w') = true := by simp [bne, hw]
+    have hpv := ptrSafe_pointer hv
+    cases hq : v.isOpq with
+    | some i =>
+      have h1 := methodsOf_isSome (find_mono hF) c (ρ₁ i)
+      have h2 := methodsOf_const hc c true (ρ₁ i) (ρ₂ i)
+      simp only [pv, hq, hne, Bool.not_false, Bool.and_self, if_true]
+      rw [← h2]
+      cases h : methodsOf td c true (ρ₁ i) with
+      | none => simp [h] at h1
+      | some l => rfl
+    | none =>
+      simp only [pv, hq, hw, hpv, Bool.not_false, Bool.and_false, Bool.false_and, Bool.false_eq_true, if_false, if_true]
+  | .iface v, h => by
+    simp only [GV.expIn] at h
+    simp only [pv]; exact pv_exp_ni v h
+  | .slice vs, h => by
+    have hw := (ptrSafe_not_wp hv).1
+    simp only [GV.expIn] at h
+    simp only [pv, hw, Bool.and_false, Bool.false_eq_true, if_false]; exact pvL_exp_ni vs h
+  | .array vs, h => by
+    have hw := (ptrSafe_not_wp hv).1
+    simp only [GV.expIn] at h
+    simp only [pv, hw, Bool.and_false, Bool.false_eq_true, if_false]; exact pvL_exp_ni vs h
+  | .map kvs, h => by
+    have hw := (ptrSafe_not_wp hv).1
+    simp only [GV.expIn, Bool.and_eq_true] at h
+    simp only [pv, hw, Bool.and_false, Bool.false_eq_true, if_false]; exact pvKV_exp_ni kvs h.2
+  | .struct fs, h => by
+    have hw := (ptrSafe_not_wp hv).1
+    simp only [GV.expIn] at h
+    simp only [pv, hw, Bool.and_false, Bool.false_eq_true, if_false]; exact pvF_exp_ni fs h
+  | .tm _ _ fs, h => by
+    have hw := (ptrSafe_not_wp hv).1
+    simp only [GV.expIn] at h
+    simp only [pv, hw, Bool.and_false, Bool.false_eq_true, if_false]; exact pvF_exp_ni fs h
+  | .sh _ fs, h => by
+    have hw := (ptrSafe_not_wp hv).1
+    simp only [GV.expIn] at h
+    simp only [pv, hw, Bool.and_false, Bool.false_eq_true, if_false]; exact pvF_exp_ni fs h
+theorem pvL_exp_ni : ∀ vs : List GV, GV.expInL vs = true → pvL td c ρ₁ true vs = pvL td c ρ₂ true vs
+  | [], _ => rfl
+  | v :: vs, h => by
+    simp only [GV.expInL, Bool.and_eq_true] at h
+    simp only [pvL, pv_exp_ni v h.1, pvL_exp_ni vs h.2]
+theorem pvKV_exp_ni : ∀ kvs : List (GV × GV), GV.expInKV kvs = true → pvKV td c ρ₁ true kvs = pvKV td c ρ₂ true kvs
+  | [], _ => rfl
+  | (k, v) :: kvs, h => by
+    simp only [GV.expInKV, Bool.and_eq_true] at h
+    simp only [pvKV, pv_exp_ni k h.1.1, pv_exp_ni v h.1.2, pvKV_exp_ni kvs h.2]
+theorem pvF_exp_ni : ∀ fs : List (FieldInfo × GV), GV.expInF fs = true → pvF td c ρ₁ true fs = pvF td c ρ₂ true fs
+  | [], _ => rfl
+  | (fi, v) :: fs, h => by
+    simp only [GV.expInF, Bool.and_eq_true, Bool.or_eq_true] at h
+    rcases h.1 with ⟨he, hv'⟩ | hn
+    · simp only [pvF, he, Bool.and_self, pv_exp_ni v hv', pvF_exp_ni fs h.2]
+    · simp only [pvF, pv_noOpq td c ρ₁ ρ₂ v false (true && fi.exported) hn, pvF_exp_ni fs h.2]
+end
+
+theorem pa_exp_ni (v0 : GV) (h : v0.dyn.expIn = true) : pa td c ρ₁ v0 = pa td c ρ₂ v0 := by
+  have hw := (ptrSafe_not_wp hv).1
+  have hp := (ptrSafe_not_wp hv).2
+  have hpv := ptrSafe_pointer hv
+  unfold pa
+  simp only [hw, hp, Bool.false_and, Bool.false_eq_true, if_false]
+  by_cases hT : (c.verb == 'T') = true
+  · simp only [hT, if_true]
+  · simp only [hT]
+    generalize v0.dyn = v at h ⊢
+    cases v with
+    | opq i => exact opq_leaf_ni hc hF c hw ρ₁ ρ₂ false hF i _ _
+    | ptr w =>
+      simp only [GV.expIn] at h
+      cases hq : w.isOpq with
+      | some i =>
+        have : w = .opq i := by cases w <;> simp_all [GV.isOpq]
+        subst this
+        simp only []
+        exact opq_leaf_ni hc hF c hw ρ₁ ρ₂ true (find_mono hF) i _ _
+      | none =>
+        by_cases hcn : w.isContainer = true
+        · simp only [pv, hq, hcn, Bool.not_true, Bool.false_and, Bool.true_and, Bool.false_eq_true, if_false, if_true]
+          exact pv_exp_ni hc hF c hv ρ₁ ρ₂ w h
+        · simp only [pv, hq, hcn, hpv, Bool.not_true, Bool.false_and, Bool.true_and, Bool.false_eq_true, if_false, if_true]
+    | str _ => rfl
+    | num _ => rfl
+    | nilv => rfl
+    | nilSlice => rfl
+    | nilMap => rfl
+    | iface v => simp only [GV.expIn] at h; simp only [pv]; exact pv_exp_ni hc hF c hv ρ₁ ρ₂ v h
+    | slice vs =>
+      simp only [GV.expIn] at h
+      simp only [pv, Bool.not_true, Bool.false_and, Bool.false_eq_true, if_false]; exact pvL_exp_ni hc hF c hv ρ₁ ρ₂ vs h
+    | array vs =>
+      simp only [GV.expIn] at h
+      simp only [pv, Bool.not_true, Bool.false_and, Bool.false_eq_true, if_false]; exact pvL_exp_ni hc hF c hv ρ₁ ρ₂ vs h
+    | map kvs =>
+      simp only [GV.expIn, Bool.and_eq_true] at h
+      simp only [pv, Bool.not_true, Bool.false_and, Bool.false_eq_true, if_false]; exact pvKV_exp_ni hc hF c hv ρ₁ ρ₂ kvs h.2
+    | struct fs =>
+      simp only [GV.expIn] at h
+      simp only [pv, Bool.not_true, Bool.false_and, Bool.false_eq_true, if_false]; exact pvF_exp_ni hc hF c hv ρ₁ ρ₂ fs h
+    | tm o vv fs =>
+      simp only [GV.expIn] at h
+      simp only [pv, Bool.not_true, Bool.false_and, Bool.false_eq_true, if_false]; exact pvF_exp_ni hc hF c hv ρ₁ ρ₂ fs h
+    | sh k fs =>
+      simp only [GV.expIn] at h
+      simp only [pv, Bool.not_true, Bool.false_and, Bool.false_eq_true, if_false]; exact pvF_exp_ni hc hF c hv ρ₁ ρ₂ fs h
+end expNI
+
+/-- **fmt, pointer-safe verbs, general form**: any receiver-free method table with `Format` on values, every verb in
+`v d x X b o` with any flags, every operand tree in which every struct field that holds an opaque string somewhere below it is exported (pointers to structs, slices, maps,
+interfaces, other pointers at any depth; maps with several entries keyed by plain values): the text does not depend on the secrets -/
+theorem C14_fmt_pointer_verbs_noninterference (td : TD) (hc : td.Const) (hF : (td.find "Format" false).isSome = true)
+    (c : FmtCtx) (hv : ptrSafeVerbs.contains c.verb = true) (v : GV) (h : v.dyn.expIn = true) (ρ₁ ρ₂ : Nat → String) :
+    pa td c ρ₁ v = pa td c ρ₂ v :=
+  pa_exp_ni hc hF c hv ρ₁ ρ₂ v h
+
+/-- … on the regenerated method table of `configopaque.String` -/
+theorem C14_fmt_pointer_verbs_noninterference_real (c : FmtCtx) (hv : ptrSafeVerbs.contains c.verb = true)
+    (v : GV) (h : v.dyn.expIn = true) (ρ₁ ρ₂ : Nat → String) : pa realTD c ρ₁ v = pa realTD c ρ₂ v :=
+  C14_fmt_pointer_verbs_noninterference realTD C14_methods_recv_free (by decide) c hv v h ρ₁ ρ₂
+
+/-- non-vacuity, in the shape of the OTLP receiver configuration (`protocols::grpc` → pointer → struct holding an opaque field):
+exported-only but not plain; `%v` / `%#v` / `%d` show nothing secret-dependent, `%s` does (the verb restriction is needed) -/
+example :
+    let cfg : GV := .ptr (.struct [({ name := "protocols" }, .struct [({ name := "grpc" }, .ptr (.struct [({ name := "tls" },
+      .struct [({ name := "key_pem" }, .opq 0)])]))])])
+    cfg.dyn.expIn = true ∧ cfg.plainTop = false ∧
+    pa realTD { verb := 'v' } (fun _ => "s3cr3t") cfg = [] ∧ pa realTD { verb := 'v', sharpV := true } (fun _ => "s3cr3t") cfg = [] ∧
+    pa realTD { verb := 's' } (fun _ => "s3cr3t") cfg = [⟨.badVerbRaw, "s3cr3t"⟩] := by decide
+
+/-- an exported-only tree is plain as soon as it has no pointer to a non-opaque value; conversely every plain tree is
+exported-only: the new class extends the old one -/
+theorem C14_plain_is_exported_only : ∀ v : GV, v.plainIn = true → v.expIn = true := plainIn_expIn
 
 end OtelVerif.C14
